@@ -988,7 +988,7 @@ static bool allowedType(const std::string& comm, const std::string& op, const st
   if (op == "igather" || op == "iscatter" || op == "iallgather") return mpi ? in({"int", "ref"}) : in({"int"});
   if (op == "iallreduce") return mpi ? in({"int", "vec", "ref", "bool"}) : in({"int", "vec", "bool"});
   if (op == "iallreduce1") return in({"int", "vec", "ref", "bool"});
-  if (op == "p2p") return mpi && in({"int", "vec", "bool"});
+  if (op == "p2p") return mpi && in({"int", "vec", "bool", "ref"});  // ref (round four): isend/irecv with lvalue buffers
   return false;
 }
 // two-buffer operations of Communication<MPI_Comm>: the future is an MPIFuture<R,S> that owns a send object
@@ -1171,7 +1171,19 @@ static Result execFut(const std::vector<std::string>& hdr, const std::string& bo
       ex.data = c.vals[root];
       auto src = [&](int gen) -> const std::vector<int>& { return V(gen)[root]; };
       if (P < 2 || (rk != root && rk != dst)) { r.impl = "idle"; r.oracle = "ok trivial"; }
-      else if (rk == root) {
+      else if (c.type == "ref") {
+        // round four: isend / irecv with lvalue buffers -> MPIFuture<int&> (impl::Buffer<int&>) created by the
+        // point-to-point members; get() hands back a reference to the caller's object
+        if (rk == root) {
+          ex.refTarget = &g_slot[1];
+          r = drive([&](int gen) { g_slot[gen] = src(gen)[0]; return cc.isend(g_slot[gen], dst, 19); }, c, ex);
+          r.oracle = refHolds(r, g_slot[1] != ex.data[0], std::to_string(g_slot[1]), std::to_string(ex.data[0]));
+        } else {
+          ex.refTarget = &g_outSlot[1];
+          r = drive([&](int gen) { g_outSlot[gen] = SENT; return cc.irecv(g_outSlot[gen], root, 19); }, c, ex);
+          r.oracle = refHolds(r, g_outSlot[1] != ex.data[0], std::to_string(g_outSlot[1]), std::to_string(ex.data[0]));
+        }
+      } else if (rk == root) {
         if (c.type == "int") r = drive([&](int gen) { return cc.isend(int(src(gen)[0]), dst, 19); }, c, ex);
         else if (c.type == "bool") r = drive([&](int gen) { return cc.isend(bool(src(gen)[0] != 0), dst, 19); }, c, ex);
         else r = drive([&](int gen) { return cc.isend(std::vector<int>(src(gen)), dst, 19); }, c, ex);
@@ -1217,7 +1229,9 @@ static const std::vector<FutKind>& futKinds() {
       {"mpi", "ibroadcast", "bool"}, {"mpi", "iallreduce", "bool"}, {"mpi", "iallreduce1", "bool"}, {"mpi", "p2p", "bool"},
       {"mpi", "iallreduce", "ref"},  {"mpi", "igather", "ref"},     {"mpi", "iscatter", "ref"},    {"mpi", "iallgather", "ref"},
       {"seq", "ibroadcast", "bool"}, {"seq", "iallreduce", "bool"}, {"seq", "iallreduce1", "bool"}, {"seq", "ibroadcast", "ref"},
-      {"seq", "iallreduce1", "ref"}};
+      {"seq", "iallreduce1", "ref"},
+      // round four: point-to-point with lvalue buffers
+      {"mpi", "p2p", "ref"}};
   return k;
 }
 static const std::vector<std::string> kWraps = {"raw", "erased", "assigned", "voidcast", "movedfrom", "null",
